@@ -1741,6 +1741,58 @@ def run_basis(H):
     H.note_class("basis")
 
 
+def run_basis_verdicts(H):
+    """A matrix basis answers queries about itself (orthogonal / normal / Hermitian / identity-first) under the global
+    tolerance of the moment; the answer must not depend on what the same basis object was asked before (a verdict
+    remembered from a Settings.set_atol window, missed seeded change C13-4).  A tolerance-sensitive basis (one element
+    tilted by delta towards another, delta between the default tolerance and the window) is queried on the used object
+    and on fresh objects built from the same arrays."""
+    ctx, Q, rng = H.ctx, H.Q, H.rng
+    name = int(rng.choice(list(ESYS)))
+    raw = [np.array(x, copy=True) for x in basis_raw(name)]
+    delta = float(rng.choice([1e-9, 1e-7, 3e-5]))
+    i, j = [int(v) for v in rng.choice(np.arange(1, len(raw)), size=2, replace=False)]
+    raw[i] = raw[i] + delta * raw[j]                     # inner product <B_i, B_j> ~ delta, norm of B_i ~ 1 + delta^2/2
+    window = float(rng.choice([1e-6, 1e-3, 1e-2]))
+    cls = Q.mb.MatrixBasis if rng.random() < 0.5 else Q.mb.SparseMatrixBasis
+    methods = ["is_orthogonal", "is_normal", "is_hermitian", "is_0thpropI", "is_trace_less"]
+
+    def ask(b):
+        out = {}
+        for mname in methods:
+            f = getattr(b, mname, None)
+            if f is not None:
+                try:
+                    out[mname] = bool(f())
+                except Exception as e:  # noqa: BLE001
+                    out[mname] = "raises:" + type(e).__name__
+        try:
+            out["ElementalSystem.flag"] = bool(Q.ElementalSystem(name, b).is_orthonormal_hermitian_0thprop_identity)
+        except Exception as e:  # noqa: BLE001
+            out["ElementalSystem.flag"] = "raises:" + type(e).__name__
+        return out
+
+    with H.hs.paused():
+        used = cls([x.copy() for x in raw])
+        order = str(rng.choice(["window-first", "default-first"]))
+        if order == "default-first":
+            ask(used)
+        with atol_window(Q, window):
+            in_window_used = ask(used)
+            in_window_fresh = ask(cls([x.copy() for x in raw]))
+        after_used = ask(used)
+        after_fresh = ask(cls([x.copy() for x in raw]))
+    for mname in after_fresh:
+        ctx.truth("twin:basis-verdicts", after_used.get(mname) == after_fresh[mname],
+                  key=f"twin-differs:atol-window:{cls.__name__}.{mname}:used-basis-remembers-verdict-of-other-tolerance",
+                  info={"delta": delta, "window": window, "order": order, "used": after_used.get(mname), "fresh": after_fresh[mname]})
+        ctx.truth("twin:basis-verdicts", in_window_used.get(mname) == in_window_fresh[mname],
+                  key=f"twin-differs:atol-window:{cls.__name__}.{mname}:used-basis-ignores-current-tolerance",
+                  info={"delta": delta, "window": window, "order": order, "used": in_window_used.get(mname), "fresh": in_window_fresh[mname]})
+    H.state_events += 1
+    H.note_class("basis")
+
+
 # =================================================================== workload
 
 
@@ -1872,7 +1924,10 @@ def step(H, queue):
                 H.run(op)
         return
     if cls == "basis":
-        run_basis(H)
+        if rng.random() < 0.4:
+            run_basis_verdicts(H)
+        else:
+            run_basis(H)
         return
     if cls == "cache":
         H.state_events += 1
